@@ -105,6 +105,9 @@ class ExpandIdentity(RewriteRuleClassBase):
         if shape.const_value is None:
             # Shape is not a constant and cannot be guessed.
             return check_result.fail("Shape is not a constant and cannot be guessed.")
+        if shape.is_graph_input():
+            # An initializer that is also a graph input is only a default value.
+            return check_result.fail("Shape is a graph input.")
         if (x_shape := x.shape) is None:
             # We don't know the shape of the input
             return check_result.fail("Input shape is not known.")
